@@ -44,7 +44,7 @@ int main(int argc, char** argv) {
   for (int d = 2; d <= 6; d++) {
     Alpha al = make_alpha(d, ar.reduced);
     const std::vector<double>& TT = (th || d <= 4) && !ar.reduced ? TH : TH4;
-    std::vector<double> TTt = TT; if (!ar.reduced) { TTt.push_back(1e-9); TTt.push_back(-3e-8); TTt.push_back(2 * PI - 2e-9); }   // small angles: cos(theta) rounds to 1, the rotation is not the identity
+    std::vector<double> TTt = TT; if (!ar.reduced) { TTt.push_back(1e-9); TTt.push_back(-3e-8); TTt.push_back(2 * PI - 2e-9); TTt.push_back(1e9); TTt.push_back(-3e12); TTt.push_back(1e15); }   // and angles of many turns: every real angle is a legal parameter   // small angles: cos(theta) rounds to 1, the rotation is not the identity
     for (int i = 0; i < d; i++) for (int j = i + 1; j < d; j++) for (double t : TTt) for (double de : TT) {
       Mat R = plane(d, i, j, t, de), Rd = ref::dagger(R);
       for (size_t a = 0; a < al.vecs.size(); a++) {
@@ -80,6 +80,10 @@ int main(int argc, char** argv) {
   for (int i = 0; i < 6; i++) for (int j = i + 1; j < 6; j++) for (double t : {1e-9, -3e-8}) for (double de : {0.0, 1.0}) {
     if (ar.reduced && !(i == 0 && j == 1) && !(i == 4 && j == 5)) continue;
     PSet p; p.th.assign(36, 0); p.de.assign(36, 0); p.th[i * 6 + j] = t; p.de[i * 6 + j] = de; p.name = fmt("single-small(%d,%d,%.3g,%.3g)", i, j, t, de); sets.push_back(p);
+  }
+  for (int i = 0; i < 6; i++) for (int j = i + 1; j < 6; j++) for (double t : {1e9, -3e12}) for (double de : {0.0, 1e15}) {   // many turns
+    if (ar.reduced && !(i == 0 && j == 1)) continue; if (!th && (i + j) % 3) continue;
+    PSet p; p.th.assign(36, 0); p.de.assign(36, 0); p.th[i * 6 + j] = t; p.de[i * 6 + j] = de; p.name = fmt("single-large(%d,%d,%.3g,%.3g)", i, j, t, de); sets.push_back(p);
   }
   { PSet p; p.th.assign(36, 0); p.de.assign(36, 0); for (int i = 0; i < 6; i++) for (int j = i + 1; j < 6; j++) { p.th[i * 6 + j] = 1e-9 * (1 + i + 2 * j) * ((i + j) % 2 ? -1 : 1); p.de[i * 6 + j] = 0.3 * j; } p.name = "all-pairs-small"; sets.push_back(p); }
   for (int w = 0; w < 3; w++) { PSet p; p.th.assign(36, 0); p.de.assign(36, 0); for (int i = 0; i < 6; i++) for (int j = i + 1; j < 6; j++) { p.th[i * 6 + j] = 0.3 + 0.41 * i + 0.17 * j + 0.9 * w; p.de[i * 6 + j] = (w == 0) ? 0.0 : -0.7 + 0.23 * i * j + 0.5 * w; } p.name = fmt("all-pairs-%d", w); sets.push_back(p); }
